@@ -62,7 +62,14 @@ def gen_mapping(rng):
         for h in range(a, b + 1):
             T.setdefault(h, rng.randint(-50, 50) * 10 + 37 * h)
             m.setdefault(h, []).append((s, float(T[h] + c + (rng.randint(-noise, noise) if noise else 0))))
-    # series ids are identifiers: not necessarily 0..n-1 (pieces dropped upstream leave gaps)
+    # levels at which every interval has exactly the same crossing value (rises that start from one on-grid level all
+    # have depth 0 there; recessions sampled on the level lattice reach a level the same time after their starts): such
+    # a level says nothing about WHERE the curve is but still ties its intervals to one another
+    if rng.random() < 0.35:
+        shared = [h for h, v in m.items() if len(v) >= 2]
+        for h in rng.sample(shared, min(len(shared), rng.randint(1, 3))):
+            common_value = rng.choice([0.0, float(rng.randint(-500, 500))])
+            m[h] = [(s_, common_value) for s_, _t in m[h]]
     if rng.random() < 0.5:
         ids = sorted(rng.sample(range(0, 70), ns))
         m = {h: [(ids[s_], t) for s_, t in v] for h, v in m.items()}
